@@ -38,7 +38,7 @@ TRUSTED = ["T1", "T3", "contracts/pipeline.py"]
 ASSUMPTIONS = ["A-S3 a scan without ORDER BY returns rows in rowid = insertion order", "A-S2 committed data are what a new connection reads", "A-J JSON round trip (C17)",
                "C07: parse/print of one line in a consistent dialect; C13/C14: the iterator yields one feature per feature line, in order"]
 PRECONDITIONS = ["every dialect fact of the file (key order, repeated keys, separators) is observable inside the inspected window (otherwise: known finding)"]
-FUNCTIONS = ["gffutils.feature:Feature.astuple", "gffutils.create:_DBCreator._insert", "gffutils.create:_GFFDBCreator._populate_from_lines", "gffutils.create:_GTFDBCreator._populate_from_lines",
+FUNCTIONS = ["gffutils.helpers:_jsonify", "gffutils.helpers:_unjsonify", "gffutils.feature:Feature.astuple", "gffutils.create:_DBCreator._insert", "gffutils.create:_GFFDBCreator._populate_from_lines", "gffutils.create:_GTFDBCreator._populate_from_lines",
              "gffutils.interface:FeatureDB._feature_returner", "gffutils.feature:Feature.__init__", "gffutils.feature:Feature.__unicode__", "gffutils.create:create_db"]
 
 
